@@ -56,6 +56,8 @@ func runC16(c *Ctx) {
 	c.Rule("C16.O10", "E4", "Upgrade hands the connection over with the right read deadline on both edges of KeepaliveTime > 0: renewed when positive, cleared (the HTTP keep-alive deadline cancelled) otherwise; the deadline is set on the connection the WebSocket reads from, not on the hijacked one", 2)
 	c.Rule("C16.O11", "E4", "the dial timer is armed only for a connect that is still pending (where Conn.onConnected is installed): a connect that completed at once has no poller completion to clear it, and the timer would close the established connection", 1)
 	c16DialTimerPending(c, "C16.O11")
+	c.Rule("C16.O12", "E4", "the write deadline the Upgrader arms for the handshake answer is cleared on every successful return of commResponse: on a connection whose writes do not clear it themselves (blocking mode, std net.Conn) it would fail every write after HandshakeTimeout", 1)
+	c16HandshakeDeadline(c)
 	c.Rule("C16.O6", "E5,E4", "keep-alive renewal sites exist and pass time.Now().Add(<engine>.KeepaliveTime)", 7)
 
 	L := c.Locks()
@@ -732,4 +734,62 @@ func c16DialTimerPending(c *Ctx, ob string) {
 		bad = "no dial timer is armed"
 	}
 	c.Cond(bad == "", ob, key, c.FnPos(fn), fmt.Sprintf("%d arming site(s), each under the %d condition(s) of the pending-callback installation", nArm, len(want)), bad)
+}
+
+// c16HandshakeDeadline: O12.
+func c16HandshakeDeadline(c *Ctx) {
+	fn := c.Fn("C16.O12", "(*websocket.Upgrader).commResponse")
+	if fn == nil {
+		return
+	}
+	fi := c.P.Info(fn)
+	key := fnKey(c.P, fn, "handshake write deadline cleared")
+	var arms []ssa.Instruction
+	isClear := func(in ssa.Instruction) bool {
+		cs, ok := ir.AsCall(in)
+		if !ok || !strings.HasSuffix(c.P.CalleeName(cs.Common), ".SetWriteDeadline") {
+			return false
+		}
+		_, isZero := ir.Resolve(cs.Common.Args[len(cs.Common.Args)-1]).(*ssa.Const)
+		return isZero
+	}
+	for _, cs := range c.P.Calls(fn, func(name string, _ ir.CallSite) bool { return strings.HasSuffix(name, ".SetWriteDeadline") }) {
+		if !isClear(cs.In) {
+			arms = append(arms, cs.In)
+		}
+	}
+	if len(arms) == 0 {
+		c.OK("C16.O12", key, c.FnPos(fn), "no handshake write deadline is armed")
+		return
+	}
+	bad := ""
+	// the arm's own condition (HandshakeTimeout > 0) also guards the clear: edges that contradict it are not taken
+	armFacts := fi.Facts(arms[0])
+	skip := func(i *ssa.If, k int) bool {
+		cnd, t := ir.StripNot(i.Cond, k == 0)
+		for _, ft := range armFacts {
+			fc, ftr := ir.StripNot(ft.Cond, ft.Truth)
+			if c.P.Desc(fc) != "" && c.P.Desc(fc) == c.P.Desc(cnd) && ftr != t {
+				return true
+			}
+		}
+		return false
+	}
+	vis, _ := fi.ReachOpt(arms, isClear, skip)
+	var escs []ssa.Instruction
+	for in := range vis {
+		if ir.IsExit(in) && !isClear(in) {
+			escs = append(escs, in)
+		}
+	}
+	for _, esc := range escs {
+		r, ok := esc.(*ssa.Return)
+		if !ok {
+			continue
+		}
+		if _, kind := c.retErr(fi, r); kind != "nonnil" {
+			bad = "commResponse can return successfully at " + c.Pos(r) + " with the handshake write deadline (armed at " + c.Pos(arms[0]) + ") still set: on a blocking-mode connection every write after HandshakeTimeout fails with a timeout and the connection is torn down"
+		}
+	}
+	c.Cond(bad == "", "C16.O12", key, c.Pos(arms[0]), "every successful return passes SetWriteDeadline(zero)", bad)
 }
